@@ -661,6 +661,29 @@ def gen_cases(chk):
         root = sub(rng.choice([2, 3, 4]))
         b.ops += [("P", root), ("D", root)]
         add(b.ops, "ns-nest")
+    # --- 5b. rendering a stanza that is a child of another one (its parent is not part of the output)
+    for a in choices:
+        for bb in choices:
+            b = Builder(g)
+            h0, h1, h2 = b.elem(b"a"), b.elem(b"b"), b.elem(b"c")
+            for h, v in ((h0, a), (h1, bb), (h2, bb)):
+                if v is not None:
+                    b.attr(h, XMLNS, v)
+            b.ops += [("c", h1, h2), ("c", h0, h1), ("P", h1), ("P", h2), ("P", h0)]
+            add(b.ops, "sub-render")
+    for i in range(1200 if thorough else 120):
+        b = Builder(g)
+        root = b.tree(rng.choice([2, 3, 4]), rng.choice([2, 3]), p_ns=0.6)
+        ref = run_ref(b.ops)
+        inner = [h for h, n in ref.slots.items() if n.parent is not None and n.kind == "E"]
+        for h in rng.sample(inner, min(len(inner), 3)):
+            b.ops.append(("P", h))
+            if rng.random() < 0.3:
+                cp = b.next
+                b.next += 1
+                b.ops += [("C", cp, h), ("P", cp)]
+        b.ops.append(("P", root))
+        add(b.ops, "sub-render")
     # --- 6. reply / reply_error / error_new
     def stanza(b, with_from=True, with_to=True):
         name = rng.choice([b"message", b"iq", b"presence", g.name()])
@@ -806,7 +829,7 @@ def split_line(line):
     return main.split(" "), aux.split()
 
 
-def evaluate(case, impl_line, model_line, subrender_ok=False):
+def evaluate(case, impl_line, model_line, subrender_ok=True):
     """Returns (oracle failures [str], correspondence disagreements [(stream, impl, model)], stats dict)."""
     fails, dis, stats = [], [], {"P": 0, "legal": 0, "bytes": 0, "retry": 0}
     ops = dec_prog(case)
@@ -879,7 +902,6 @@ def evaluate(case, impl_line, model_line, subrender_ok=False):
             S = maux[si] if si < len(maux) else "S:?"
             si += 1
         if n.parent is not None and not subrender_ok:
-            # rendering below a parent: only checked against the model (see the report)
             continue
         if not tree_legal(n):
             continue
@@ -942,7 +964,7 @@ def run(chk):
         "the oracle's reference interpreter of the API (checks/C09.py: Ref) states what tree a program builds",
         "programs build trees: the driver refuses xmpp_stanza_add_child of a node that already has a parent or is the root of the target's tree",
         "rendered sizes stay below INT_MAX (the model does not reduce int results)",
-        "re-read equality is demanded only inside the property's quantifier (XML names without prefix, text without CR, attribute values without TAB/CR/LF, non-empty namespaces); rendering below a parent is compared with the model only",
+        "re-read equality is demanded only inside the property's quantifier (XML names without prefix, text without CR, attribute values without TAB/CR/LF, non-empty namespaces); a stanza rendered while it is the child of another one must keep its own xmlns (one it merely inherits is not demanded)",
     ]
     chk.prove()
     exe = build_impl_driver()
